@@ -49,7 +49,7 @@ def run(ck):
                  "loop-carried data; a mapping result replaces the data (tested before "
                  "truthiness); the first false result returns False before any later filter and "
                  "without delivery; otherwise exactly one delivery of the last binding",
-                 'M0', 6)
+                 'M0', 5)
     R2 = ck.rule('R16.2', "Edge / not_from_undef / IfOutput / not-initialised filter have their "
                  "documented truth tables on the truthiness domain {UNDEF, falsy, truthy}",
                  'truthiness domain', 150)
@@ -69,84 +69,8 @@ def run(ck):
 
     with ck.section('R16.1'):
         # ------------------------------------------------------------------ R16.1
-        es = prog.func('block:Event.send')
-        cfg = ck.cfg(es.fid, 'M0')
-        src_param = (es.node.args.posonlyargs + es.node.args.args)[1].arg
-        loops = [n for n in cfg.nodes if n.kind == 'for' and norm(n.ast.iter) == 'self._filters']
-        ck.ob(R1, f"{es.fid} :: filter loop", len(loops) == 1,
-              "plain `for` over self._filters (configured order)" if len(loops) == 1 else
-              "the filters are not applied by one plain `for` loop over self._filters "
-              f"({len(loops)} found)", es, loops[0].ast if loops else es.node)
-        ck.need(R1, loops, "Event.send: filter loop not recognised")
-        fvar = norm(loops[0].ast.target)
-        fcalls = nodes_where(cfg, lambda n: any(isinstance(c.func, ast.Name) and c.func.id == fvar
-                                                for c in node_calls(n)))
-        ck.need(R1, len(fcalls) == 1, "Event.send: exactly one filter call expected")
-        fc = fcalls[0]
-        fcall = [c for c in node_calls(fc) if isinstance(c.func, ast.Name) and c.func.id == fvar][0]
-        rd = ck.rdefs(es.fid, 'M0')
-        okarg = len(fcall.args) == 1 and norm(fcall.args[0]) == 'data' and not fcall.keywords
-        data_defs = rd.defs_at(fc, 'data')
-        rebind = [d for d in data_defs if d.kind != 'entry']
-        rv = norm(fc.ast.targets[0]) if isinstance(fc.ast, ast.Assign) else None
-        okarg = okarg and rv is not None and all(
-            isinstance(d.ast, ast.Assign) and norm(d.ast.value) == rv for d in rebind) and bool(rebind)
-        ck.ob(R1, f"{es.fid} :: loop-carried data", okarg,
-              "each filter receives the current data; a mapping result becomes the data of later "
-              "filters" if okarg else "the filter call does not receive the loop-carried `data`, or "
-              "`data` is never re-bound to a filter's mapping result", es, fc.ast)
-        for d in rebind:
-            ok = cfg.has_guard(d, f'isinstance({rv}, MutableMapping)', True)
-            ck.ob(R1, f"{es.fid} :: {norm1(d.ast)}", ok,
-                  "re-binding only for a MutableMapping result" if ok else
-                  "data is re-bound for a result that is not known to be a MutableMapping", es, d.ast)
-        rf = [r for r in return_nodes(cfg) if is_const(r.ast.value, False)]
-        rt = [r for r in return_nodes(cfg) if is_const(r.ast.value, True)]
-        okf = bool(rf) and all(cfg.has_guard(r, f'isinstance({rv}, MutableMapping)', False) and
-                               cfg.has_guard(r, rv, False) for r in rf)
-        ck.ob(R1, f"{es.fid} :: veto", okf,
-              "return False exactly for a non-mapping false result (an empty mapping is data, not a "
-              "veto)" if okf else "the veto test is not `not a mapping and falsy` -- truthiness "
-              "tested before the mapping test turns {} into a veto", es, rf[0].ast if rf else es.node)
-        deliveries = nodes_calling(cfg, 'event')
-        srcw = nodes_where(cfg, lambda n: isinstance(n.ast, ast.Assign) and
-                           norm(n.ast.targets[0]) == "data['source']")
-
-        def events(n):
-            ev = []
-            if n in srcw:
-                ev.append('S')
-            if n is fc:
-                ev.append('F')
-            if n in deliveries:
-                ev.append('D')
-            if n in rt:
-                ev.append('Rt')
-            if n in rf:
-                ev.append('Rf')
-            if n.kind == 'stmt' and isinstance(n.ast, ast.Return) and n not in rt and n not in rf:
-                ev.append('Rx')
-            return ev
-        ok, wit, st = check_language(cfg, "S F* ( D Rt | Rf )", events, [cfg.exit])
-        ck.product_states += st['product_states']
-        ck.ob(R1, f"{es.fid} :: path language S F* (D Rt | Rf)", ok,
-              "every normal path: source item, filters, then either one delivery and True, or False "
-              "without delivery" if ok else
-              f"a path has the event word {' '.join(wit[1])} (not in S F* (D Rt | Rf))", es, es.node,
-              witness=path_witness(cfg, wit[0]) if wit else None)
-        if deliveries:
-            dc = node_calls(deliveries[0], 'event')[0]
-            okd = [norm(a) for a in dc.args] == ['self._etype'] and len(dc.keywords) == 1 and \
-                dc.keywords[0].arg is None and norm(dc.keywords[0].value) == 'data'
-            ck.ob(R1, f"{es.fid} :: delivery arguments", okd,
-                  "dest.event(self._etype, **data) with the last binding of data" if okd else
-                  f"delivery is `{norm(dc)}`; the destination must receive the filtered data", es,
-                  deliveries[0].ast)
-        keychk = nodes_where(cfg, lambda n: isinstance(n.ast, ast.Raise) and n.kinds == {'N:TypeError'}
-                             and cfg.has_guard(n, f'isinstance({rv}, MutableMapping)', True), kinds=('stmt',))
-        ck.ob(R1, f"{es.fid} :: string keys", bool(keychk),
-              "a mapping with a non-string key raises TypeError" if keychk else
-              "the string-key check of a filter's mapping result is missing", es, es.node)
+        from rules.shared import event_send_rules
+        event_send_rules(ck, R1, ('source', 'pipeline', 'veto', 'delivery', 'keys'), lambda: _send_shape(ck, prog, R1))
 
     with ck.section('R16.2'):
         # ------------------------------------------------------------------ R16.2
@@ -706,3 +630,86 @@ def _dataedit_semantics(ck, de):
           "data[key] = source block's output")
     ck.extra.setdefault('exhaustive_parts', []).append(
         f"R16.4d: {total} (operation, parameters, mapping) cases over a 3-key universe")
+
+
+def _send_shape(ck, prog, R1):
+    """Shape form of R16.1 (Event.send) for the layout of the pinned tree."""
+    es = prog.func('block:Event.send')
+    cfg = ck.cfg(es.fid, 'M0')
+    src_param = (es.node.args.posonlyargs + es.node.args.args)[1].arg
+    loops = [n for n in cfg.nodes if n.kind == 'for' and norm(n.ast.iter) == 'self._filters']
+    ck.ob(R1, f"{es.fid} :: filter loop", len(loops) == 1,
+          "plain `for` over self._filters (configured order)" if len(loops) == 1 else
+          "the filters are not applied by one plain `for` loop over self._filters "
+          f"({len(loops)} found)", es, loops[0].ast if loops else es.node)
+    ck.need(R1, loops, "Event.send: filter loop not recognised")
+    fvar = norm(loops[0].ast.target)
+    fcalls = nodes_where(cfg, lambda n: any(isinstance(c.func, ast.Name) and c.func.id == fvar
+                                            for c in node_calls(n)))
+    ck.need(R1, len(fcalls) == 1, "Event.send: exactly one filter call expected")
+    fc = fcalls[0]
+    fcall = [c for c in node_calls(fc) if isinstance(c.func, ast.Name) and c.func.id == fvar][0]
+    rd = ck.rdefs(es.fid, 'M0')
+    okarg = len(fcall.args) == 1 and norm(fcall.args[0]) == 'data' and not fcall.keywords
+    data_defs = rd.defs_at(fc, 'data')
+    rebind = [d for d in data_defs if d.kind != 'entry']
+    rv = norm(fc.ast.targets[0]) if isinstance(fc.ast, ast.Assign) else None
+    okarg = okarg and rv is not None and all(
+        isinstance(d.ast, ast.Assign) and norm(d.ast.value) == rv for d in rebind) and bool(rebind)
+    ck.ob(R1, f"{es.fid} :: loop-carried data", okarg,
+          "each filter receives the current data; a mapping result becomes the data of later "
+          "filters" if okarg else "the filter call does not receive the loop-carried `data`, or "
+          "`data` is never re-bound to a filter's mapping result", es, fc.ast)
+    for d in rebind:
+        ok = cfg.has_guard(d, f'isinstance({rv}, MutableMapping)', True)
+        ck.ob(R1, f"{es.fid} :: {norm1(d.ast)}", ok,
+              "re-binding only for a MutableMapping result" if ok else
+              "data is re-bound for a result that is not known to be a MutableMapping", es, d.ast)
+    rf = [r for r in return_nodes(cfg) if is_const(r.ast.value, False)]
+    rt = [r for r in return_nodes(cfg) if is_const(r.ast.value, True)]
+    okf = bool(rf) and all(cfg.has_guard(r, f'isinstance({rv}, MutableMapping)', False) and
+                           cfg.has_guard(r, rv, False) for r in rf)
+    ck.ob(R1, f"{es.fid} :: veto", okf,
+          "return False exactly for a non-mapping false result (an empty mapping is data, not a "
+          "veto)" if okf else "the veto test is not `not a mapping and falsy` -- truthiness "
+          "tested before the mapping test turns {} into a veto", es, rf[0].ast if rf else es.node)
+    deliveries = nodes_calling(cfg, 'event')
+    srcw = nodes_where(cfg, lambda n: isinstance(n.ast, ast.Assign) and
+                       norm(n.ast.targets[0]) == "data['source']")
+
+    def events(n):
+        ev = []
+        if n in srcw:
+            ev.append('S')
+        if n is fc:
+            ev.append('F')
+        if n in deliveries:
+            ev.append('D')
+        if n in rt:
+            ev.append('Rt')
+        if n in rf:
+            ev.append('Rf')
+        if n.kind == 'stmt' and isinstance(n.ast, ast.Return) and n not in rt and n not in rf:
+            ev.append('Rx')
+        return ev
+    ok, wit, st = check_language(cfg, "S F* ( D Rt | Rf )", events, [cfg.exit])
+    ck.product_states += st['product_states']
+    ck.ob(R1, f"{es.fid} :: path language S F* (D Rt | Rf)", ok,
+          "every normal path: source item, filters, then either one delivery and True, or False "
+          "without delivery" if ok else
+          f"a path has the event word {' '.join(wit[1])} (not in S F* (D Rt | Rf))", es, es.node,
+          witness=path_witness(cfg, wit[0]) if wit else None)
+    if deliveries:
+        dc = node_calls(deliveries[0], 'event')[0]
+        okd = [norm(a) for a in dc.args] == ['self._etype'] and len(dc.keywords) == 1 and \
+            dc.keywords[0].arg is None and norm(dc.keywords[0].value) == 'data'
+        ck.ob(R1, f"{es.fid} :: delivery arguments", okd,
+              "dest.event(self._etype, **data) with the last binding of data" if okd else
+              f"delivery is `{norm(dc)}`; the destination must receive the filtered data", es,
+              deliveries[0].ast)
+    keychk = nodes_where(cfg, lambda n: isinstance(n.ast, ast.Raise) and n.kinds == {'N:TypeError'}
+                         and cfg.has_guard(n, f'isinstance({rv}, MutableMapping)', True), kinds=('stmt',))
+    ck.ob(R1, f"{es.fid} :: string keys", bool(keychk),
+          "a mapping with a non-string key raises TypeError" if keychk else
+          "the string-key check of a filter's mapping result is missing", es, es.node)
+
